@@ -113,6 +113,22 @@ pub fn record_temp(seed: u64, thorough: bool, path: &str) -> Value {
     for n in [100usize, 200, 240, 245, 250, 255, 256, 300] { parts.push(format!("L{}{}", n, "z".repeat(n - 4))); }
     for part in parts.iter() { for _ in 0..3 { special.push((part.clone(), temp_file_name(part).to_string_lossy().to_string())); } }
     results.push(special);
+    // stale files: files that already exist under the names the next calls would produce (a recycled process id);
+    // the names handed out must stay pairwise different whatever the function does about them
+    hooks::set_thread_tag(threads + 3);
+    let mut stale: Vec<(String, String)> = Vec::new();
+    let spart = "part_stale".to_string();
+    let first = temp_file_name(&spart);
+    stale.push((spart.clone(), first.to_string_lossy().to_string()));
+    let mut created: Vec<std::path::PathBuf> = Vec::new();
+    if let Some(c) = parse_count(&first) {
+        let text = first.to_string_lossy().to_string();
+        let prefix = &text[..text.len() - c.to_string().len()];
+        for d in [1usize, 3, 4, 6, 9] { let p = std::path::PathBuf::from(format!("{}{}", prefix, c + d)); if std::fs::write(&p, b"stale").is_ok() { created.push(p); } }
+    }
+    for _ in 0..12 { stale.push((spart.clone(), temp_file_name(&spart).to_string_lossy().to_string())); }
+    for p in created { let _ = std::fs::remove_file(p); }
+    results.push(stale);
     let log = hooks::stop_atomic_log();
     let mut out = TraceOut::new();
     out.push(json!({"e": "start", "start": start, "threads": threads, "calls": calls}));
